@@ -109,6 +109,9 @@ def gen_mmt(rng: random.Random):
                 lines.append(f"{q.split('.')[1]} = {v}{unit}")
                 if unit:
                     lines.append(f"    in{unit}")
+                if rng.random() < 0.25:
+                    # meta data becomes description="..." in the saved .ode file
+                    lines.append("    desc: " + rng.choice(['the "fast" rate', 'plain words', '"""first line\n        second line"""', 'path C:\\models\\cell', 'a, b = c (d) [e] f']))
         def visible(cc):
             out = []
             for q in list(states) + list(consts) + list(inter):
@@ -141,4 +144,13 @@ def gen_mmt(rng: random.Random):
                 k_dot = max(j for j, ln in enumerate(lines) if ln.startswith(f"dot({sn})"))
                 lines.insert(k_dot + 1, f"    in{rng.choice(UNITS[1:])}")
         lines.append("")
-    return "\n".join(lines) + "\n"
+    text = "\n".join(lines) + "\n"
+    # the variable bound to time need not be called engine.time
+    ec, tn = rng.choice([("engine", "time"), ("engine", "time"), ("environment", "time"), ("engine", "tt"), ("clock", "t_ms"), ("engine", "t")])
+    if (ec, tn) != ("engine", "time"):
+        text = text.replace("engine.time", f"{ec}.{tn}").replace("[engine]\ntime = 0 bind time", f"[{ec}]\n{tn} = 0 bind time")
+    # powers of rounding functions (the writer has to keep the sign of -floor(-x) inside the power)
+    if rng.random() < 0.3:
+        st = all_state_q[0].split(".")[1]
+        text = text.replace(f"dot({st}) = ", f"dot({st}) = ceil({all_state_q[0]} * 1.5)^2 * 0.125 - floor({all_state_q[0]})^3 * 0.0625 + ", 1)
+    return text
